@@ -171,7 +171,7 @@ class C13(core.Check):
         'amb:key-vs-label', 'amb:register-vs-numeric', 'amb:indexed-vs-label-expression', 'reject:register-in-numeric-position',
         'reject:register-inside-expression', 'reject:no-variant-takes-count', 'mnemonic:upper', 'mnemonic:mixed',
         'chosen:variant>=2', 'chosen:specific', 'expect:ACCEPT', 'expect:REJECT',
-        'later-candidate-after-nonaccepting-earlier']}
+        'later-candidate-after-nonaccepting-earlier', 'amb:disallowed-pair-mirrored-is-allowed']}
 
     def gen_isa(self, rng):
         pool = alt_pool(rng)
@@ -194,7 +194,9 @@ class C13(core.Check):
             r = rng.random()
             if r < 0.75:
                 ops['operand_sets'] = {'list': [rng.choice(sorted(sets)) for _ in range(cnt)]}
-                if rng.random() < 0.35:
+                if cnt == 2 and rng.random() < 0.5:
+                    ops['operand_sets']['list'][1] = ops['operand_sets']['list'][0]
+                if rng.random() < 0.45:
                     # disallow one concrete combination
                     ids = [rng.choice(sorted(sets[s]['operand_values'])) for s in ops['operand_sets']['list']]
                     ops['operand_sets']['disallowed_pairs'] = [ids]
@@ -286,7 +288,22 @@ class C13(core.Check):
             rng = core.rng_for(0 if i < n_pre else seed, self.pid, i)
             isa = self.gen_isa(rng)
             texts = operand_texts(rng)
-            if rng.random() < 0.8:
+            mirrored = None
+            for v in encode.variants_of(isa, 'amb'):
+                os_ = (v.get('operands') or {}).get('operand_sets') or {}
+                dp = os_.get('disallowed_pairs')
+                if dp and len(dp[0]) == 2 and dp[0][0] != dp[0][1] and os_['list'][0] == os_['list'][1]:
+                    mirrored = (os_['list'][0], dp[0])
+            if mirrored and rng.random() < 0.5:
+                # the mirror image of a disallowed pair is NOT disallowed
+                sname, (i1, i2) = mirrored
+                ov = isa['operand_sets'][sname]['operand_values']
+                operands = []
+                for oid in (i2, i1):
+                    cand = [t for t in texts if accepts(oid, ov[oid], t, 0) is not None]
+                    operands.append(rng.choice(cand) if cand else rng.choice(texts))
+                mirror_case = True
+            elif rng.random() < 0.8:
                 # aim at one variant: operand texts that some alternative of that variant accepts
                 vs_ = encode.variants_of(isa, 'amb')
                 v = rng.choice(vs_)
@@ -331,6 +348,8 @@ class C13(core.Check):
                         tags.add('amb:specific-and-set-accept')
                 if info.get('disallowed_hit'):
                     tags.add('amb:disallowed-pair-hit')
+                if mirrored and [op['id'] for op in stmt['ops']] == [mirrored[1][1], mirrored[1][0]] and stmt['spec'] is None:
+                    tags.add('amb:disallowed-pair-mirrored-is-allowed')
                 if int(info['chosen'][1]) >= 1:
                     tags.add('chosen:variant>=2')
                     tags.add('later-candidate-after-nonaccepting-earlier')
